@@ -41,6 +41,9 @@ class C12(Prop):
         obs["seq"] = [r for r in C.read_jsonl(p) if not r.get("skipped")]
         if rc != 0 or not obs["seq"]:
             raise RuntimeError("C12 seq harness did not run: rc=%s\n%s" % (rc, out[-2000:]))
+        rc, out, p, dt = C.go_test_overlay(ctx.work, "./agent/websockets/", "TestVerifC12Shapes$", OVERLAY, "shapes.jsonl", ctx.seed, ctx.tier, timeout=600)
+        obs["shapes"] = C.read_jsonl(p)
+        obs["shapes_tail"] = out[-3000:]
         rc, out, p, dt = C.go_test_overlay(ctx.work, "./agent/websockets/", "TestVerifC12Conc$", OVERLAY, "conc.jsonl", ctx.seed, ctx.tier, race=True, timeout=2400)
         obs["conc"] = C.read_jsonl(p)
         obs["races"] = servsched.race_reports(out)
@@ -56,6 +59,23 @@ class C12(Prop):
         res = []
         for sig, txt in obs["races"]:
             res.append((sig, "the race detector reported a data race in the shim handlers", {"report": txt}))
+        shapes = obs.get("shapes") or []
+        if not any(r.get("kind") == "shapes-survived" for r in shapes):
+            import re
+            m = re.search(r"(panic: [^\n]*|fatal error: [^\n]*)", obs.get("shapes_tail", ""))
+            last = [r for r in shapes if r.get("kind") == "shape"][-1:] or [{}]
+            res.append(("shape:agent-crashed", "the process ended while data posts with unusual `msg` shapes were made (%s); last completed shape: %r" % (m.group(1) if m else "see output", last[0].get("shape")),
+                        {"driver": "TestVerifC12Shapes", "last_completed": last[0], "output_tail": obs.get("shapes_tail", "")[-1500:]}))
+        for r in shapes:
+            if r.get("kind") != "shape":
+                continue
+            rp = {"driver": "TestVerifC12Shapes: one data post whose msg is the given JSON value, then a well-formed one", "observed": r}
+            if r.get("error"):
+                res.append(("shape:open-failed", r["error"], rp))
+            elif r["status"] not in (200, 400, 500):
+                res.append(("shape:unexpected-status", "data post with msg %s answered %s" % (r["shape"], r["status"]), rp))
+            elif r["followup_status"] != 200 or not r["followup_delivered"]:
+                res.append(("shape:session-broken-by-malformed-message", "after a data post with msg %s the session no longer delivers (status %s, delivered %s)" % (r["shape"], r["followup_status"], r["followup_delivered"]), rp))
         for r in obs["seq"]:
             rp = {"driver": "TestVerifC12Seq: shim calls one at a time on a fresh session", "calls": r.get("ops"), "statuses": r.get("statuses"), "notes": r.get("notes")}
             if r.get("error"):
